@@ -252,6 +252,13 @@ func (s *SIP) DecodeFromBytes(data []byte, df gopacket.DecodeFeedback) error {
 	var offset int
 	var eoh = false // track End Of Headers
 
+	// Forget the previous message when the layer is reused: everything below is
+	// only assigned when the corresponding line or header is present.
+	s.Version, s.Method, s.RequestURI = 0, 0, ""
+	s.IsResponse, s.ResponseCode, s.ResponseStatus = false, 0, ""
+	s.Headers = make(map[string][]string)
+	s.cseq, s.contentLength, s.lastHeaderParsed = 0, -1, ""
+
 	// Iterate on all lines of the SIP Headers
 	// and stop when we reach the SDP (aka when the new line
 	// is at index 0 of the remaining packet)
